@@ -104,17 +104,24 @@ class Url:
             rest = raw[len(SLASH + SLASH):]
         if scheme is not None or starts_with_double_slash:
             assert rest is not None
-            parts = rest.split(SLASH, 1)
-            username, password, host, port = Url._parse(parts[0])
+            # Authority ends at the first slash, question mark or hash
+            end = len(rest)
+            for delimiter in (SLASH, b'?', b'#'):
+                index = rest.find(delimiter)
+                if index != -1:
+                    end = min(end, index)
+            authority, remainder = rest[:end], rest[end:]
+            # Empty path followed by a query e.g. http://host?key=value
+            if remainder and not remainder.startswith(SLASH):
+                remainder = SLASH + remainder
+            username, password, host, port = Url._parse(authority)
             return cls(
                 scheme=scheme if not starts_with_double_slash else b'http',
                 username=username,
                 password=password,
                 hostname=host,
                 port=port,
-                remainder=None if len(parts) == 1 else (
-                    SLASH + parts[1]
-                ),
+                remainder=None if remainder == b'' else remainder,
             )
         username, password, host, port = Url._parse(raw)
         return cls(username=username, password=password, hostname=host, port=port)
